@@ -441,7 +441,7 @@ def check_order(ctx: Context, rep, rule: str) -> None:
     okw = bool(wf) and any(
         isinstance(c, ast.Call) and ast.unparse(c.func).endswith(
             "save_numpy_vector_as_bytearray") and any(
-                k.arg == "value" and ast.unparse(k.value) ==
+                k.arg == "value" and norm.canon(w, k.value) ==
                 f"values[{wf[0].target.id}.name]" for k in c.keywords)
         for c in ast.walk(wf[0])) if wf else False
     # FlatBuffers vectors are built back to front: every prepend of offsets
@@ -582,30 +582,45 @@ def tfrec_tables(ctx: Context):
         reader[k.value] = ast.unparse(v)
     # serialized tensor parse types: from each parse_tensor site, its guard
     # (which dtypes) and its out_type argument (literal or table lookup)
+    # which dtypes go through parse_tensor and with which out_type: evaluated
+    # per dtype name on the reader specialised on attribute.dtype (nested if,
+    # guard clause + continue, match ... all read the same)
     parse: dict[str, str] = {}
-    parse_sites = [c for f in mod.functions.values() if f.qualname.startswith(
-        "get_from_tfrecord") for c in f.calls()
+    parse_sites = []
+    rfuncs = [f for f in mod.functions.values()
+              if f.qualname.startswith("get_from_tfrecord") and
+              not isinstance(f.node, ast.Lambda)]
+    for f in rfuncs:
+        sites_f = [c for c in f.calls()
                    if ast.unparse(c.func).endswith("parse_tensor")]
-    for ps in parse_sites:
-        cur = parent(ps)
-        while cur is not None and not isinstance(cur, ast.If):
-            cur = parent(cur)
-        ds = dtype_set(cur.test) if cur is not None else None
-        out_t = ps.args[1] if len(ps.args) > 1 else next(
-            (k.value for k in ps.keywords if k.arg == "out_type"), None)
-        if ds is None or out_t is None:
-            raise AnalysisError(f"{frm.loc(ps)}: parse_tensor site not "
-                                "understood")
-        if isinstance(out_t, ast.Subscript) and isinstance(
-                out_t.value, ast.Name) and isinstance(
-                    mod.globals.get(out_t.value.id), ast.Dict):
-            g = mod.globals[out_t.value.id]
-            table = {k.value: ast.unparse(v) for k, v in zip(g.keys, g.values)}
-            for d in ds:
-                parse[d] = table.get(d, "<missing>")
-        else:
-            for d in ds:
-                parse[d] = ast.unparse(out_t)
+        if not sites_f:
+            continue
+        parse_sites += sites_f
+        for d in sorted(universe):
+            ev = dtypeval.DtypeEval(subject, d, mod.globals)
+            cfg_r = CFG(f, env={subject: d}, oracle=ev.oracle)
+            live_r = cfg_r.reachable([cfg_r.entry],
+                                     follow=lambda a, b, lab: lab != "exc")
+            for n in cfg_r.calls():
+                if n not in live_r or n.ast not in sites_f:
+                    continue
+                ps = n.ast
+                out_t = ps.args[1] if len(ps.args) > 1 else next(
+                    (k.value for k in ps.keywords if k.arg == "out_type"), None)
+                if out_t is None:
+                    raise AnalysisError(f"{f.loc(ps)}: parse_tensor site not "
+                                        "understood")
+                if isinstance(out_t, ast.Subscript) and isinstance(
+                        out_t.value, ast.Name) and isinstance(
+                            mod.globals.get(out_t.value.id), ast.Dict):
+                    g = mod.globals[out_t.value.id]
+                    table = {k.value: ast.unparse(v)
+                             for k, v in zip(g.keys, g.values)}
+                    parse[d] = table.get(d, "<missing>")
+                else:
+                    parse[d] = ast.unparse(out_t)
+    # a dtype whose parse test could not be decided would show up as parsed
+    # for every dtype; the writer side already fails on undecidable tests
     return to, frm, writer, reader, parse, parse_sites, default_raises, rd
 
 
